@@ -39,3 +39,8 @@ claim("C14", "exploration", "Hypothesis request histories against generated virt
       "must not have raised, the connection must be open with one reply line per unsuppressed request, the session must be offered, and helpers.parse_pdu must accept the reply for the "
       "request both as RawRequest and as typed request. Exploration: models, states and requests are unbounded.",
       "Default behaviour switches only; in-memory streams stand in for TCP.")
+claim("C16", "exploration", "Hypothesis case batches replayed in several fresh interpreters (different PYTHONHASHSEED, import order, clock, global RNG state): differential of models and transcripts; structural model invariants",
+      "Generated (seed, parameters, history) batches are executed by 4 (quick) / 8 (thorough) worker interpreters with different hash seeds, import orders, wall clocks and global random "
+      "state; models (canonical JSON) and transcripts must be byte-identical except for the deliberately fresh security seeds; mandatory sessions/services, reachability from and return to "
+      "the default session are checked on every generated model. Exploration over seeds, parameters and histories.",
+      "Environments are sampled (a finite set of interpreter configurations on one machine); security seeds and keys derived from them are masked.")
